@@ -655,7 +655,15 @@ class GraphBasedModelConstructor:
                 five_prime_pos = max([a.corrected_exons[-1][1] for a in clustered_reads[three_prime_pos]])
 
             strand = '+' if forward else '-'
-            coordinates = (five_prime_pos, three_prime_pos) if forward else (three_prime_pos, five_prime_pos)
+            if forward:
+                coordinates = (five_prime_pos, three_prime_pos)
+            else:
+                # a polyT position is recorded 2 bases in front of the first base that is not a part of the tail
+                # (and not below 1): the model starts at that base, as a forward model ends at the polyA position
+                first_transcript_base = three_prime_pos + 2
+                if three_prime_pos <= 1:
+                    first_transcript_base = min(a.corrected_exons[0][0] for a in clustered_reads[three_prime_pos])
+                coordinates = (first_transcript_base, five_prime_pos)
             new_transcript_id = TranscriptNaming.transcript_prefix + str(self.get_transcript_id())
             transcript_gene = (TranscriptNaming.novel_gene_prefix + self.gene_info.chr_id +
                                "_" + str(self.get_transcript_id()))
